@@ -21,6 +21,20 @@ def _floor_trace():
     return lines
 
 
+def _cbm_trace():
+    from . import floor_cfg as F
+    from . import floor_tracer as T
+    cfg = F.norm(dict(devs=[F.src(2, 9, pval=1),
+                            F.dev('processor', [1], cyc=1, wear=1, sint=1, pint=3, scap=2, thr=3, wodur=3, wocap=1, wocost=1),
+                            F.dev('sink', [2], cyc=0)], horizon=32, maintcap=1))
+    cfg['cid'] = 1
+    cfg['family'] = 'selftest'
+    lines, err = T.run_cfg(1, cfg, 5)
+    if err:
+        raise C.MachineryError('selftest trace failed: ' + err)
+    return lines
+
+
 def _validate(stage, module, lines):
     fails, n, _ = P.validate_traces(stage, module, module + '.cfg', [lines], shards=1)
     return sorted({f[2] for f in fails})
@@ -74,6 +88,26 @@ def main():
     for i, ln in enumerate(t):
         ln['k'] = i
     expect('step line %d removed' % k, t, ['C', 'D.StepFn'])
+    # condition-based maintenance: sensors, the monitoring system and the maintainer on a floor trace
+    cb = _cbm_trace()
+    expect('unmodified cbm floor trace', cb, [])
+    t = copy.deepcopy(cb)
+    k = next(i for i, ln in enumerate(t) if any(o[0] == 'sense' and o[3] == 0 for o in ln['ev'].get('occ', [])))
+    for o in t[k]['ev']['occ']:
+        if o[0] in ('sense', 'cms'):
+            o[4] += 1
+    expect('sensed value + 1 at line %d' % k, t, ['C19.FloorOutputSensorCadence'])
+    t = copy.deepcopy(cb)
+    t[k]['ev']['occ'] = [o for o in t[k]['ev']['occ'] if o[0] != 'cms']
+    expect('monitoring system not called at line %d' % k, t, ['C19.FloorMonitorReceivesEachOnceInOrder'])
+    t = copy.deepcopy(cb)
+    k = next(i for i, ln in enumerate(t) if ln['st']['mt']['active'])
+    t[k]['st']['mt']['util'] += 1
+    expect('maintainer utilisation + 1 at line %d' % k, t, ['C12.FloorCapacityNeverExceeded'])
+    t = copy.deepcopy(cb)
+    k = next(i for i, ln in enumerate(t) if ln['ev'].get('kind') == 'psense')
+    t[k]['st']['dev'][1]['ptime'][-1] += 1
+    expect('periodic measurement time + 1 at line %d' % k, t, ['C19.FloorSeriesBoundedAndAligned'])
     # kernel: the clock of one recorded step
     from . import kernel_driver as KD
     from .kernel_params import bodies_module
